@@ -97,7 +97,16 @@ func (s *stRun) open1() error {
 	s.ch.RegisterLiveCountFunction(func() int { return s.live })
 	// the swamp always loads before it writes
 	b := beacon.New()
+	w0 := s.d.LogLen()
+	r0 := s.d.Stats().Renames
 	s.ch.Load(b)
+	if s.d.Stats().Renames > r0 {
+		// the load compacted the fragmented file (self-heal): its crash points are enumerated like any compaction's
+		s.compWindows = append(s.compWindows, [2]int{w0, s.d.LogLen()})
+		if s.res != nil {
+			s.res.count("compactions_via_load", 1)
+		}
+	}
 	return nil
 }
 
